@@ -220,6 +220,13 @@ theorem index_sorted (c c' : Cache) (n : Entry) (ok : Bool) (h : insertRegionToC
     (hs : Sorted c.sorted) : Sorted c'.sorted :=
   insert_sorted h hs
 
+/-- ListRegionIDsInKeyRange: whenever it answers, the regions it walked through cover every key of [startKey, endKey]
+    (end inclusive) — every cache state, every PD behaviour -/
+theorem list_region_ids_cover (fuel : Nat) (c c' : Cache) (pd : PD) (startKey endKey : Bytes) (ls : List Region)
+    (h : listRegionIDs fuel c pd startKey endKey [] = (c', .ok ls)) :
+    ∀ k, Bytes.le startKey k = true → Bytes.le k endKey = true → ∃ l ∈ ls, l.contains k = true :=
+  listRegionIDs_spec h (covUpTo_init startKey [])
+
 /-! ## every operation sequence: the reachable caches -/
 
 /-- after ANY sequence of API operations (lookups of all kinds answered by arbitrary, changing or stale PD states,
